@@ -6,6 +6,7 @@ import (
 	"go/token"
 	"go/types"
 	"sort"
+	"strconv"
 	"strings"
 
 	"golang.org/x/tools/go/ssa"
@@ -396,6 +397,22 @@ func normCond(v ssa.Value) (string, bool) {
 			case k == 0 && (op == token.EQL || op == token.LEQ), k == 1 && op == token.LSS:
 				nonnegTexts[t] = true
 				return t, neg
+			}
+		}
+		// string(X) == "lit" for a byte slice X is bytes.Equal(X, []byte("lit")), the spelling of the reference tree
+		if b.Op == token.EQL || b.Op == token.NEQ {
+			for _, xy := range [][2]ssa.Value{{b.X, b.Y}, {b.Y, b.X}} {
+				cv, isConv := xy[0].(*ssa.Convert)
+				k, isConst := xy[1].(*ssa.Const)
+				if !isConv || !isConst || k.Value == nil || k.Value.Kind() != constant.String {
+					continue
+				}
+				if sl, isSlice := cv.X.Type().Underlying().(*types.Slice); isSlice {
+					if bt, isBasic := sl.Elem().Underlying().(*types.Basic); isBasic && bt.Kind() == types.Uint8 {
+						t := "bytes.Equal(" + describe(cv.X) + ", []byte(" + strconv.Quote(constant.StringVal(k.Value)) + "))"
+						return t, neg != (b.Op == token.NEQ)
+					}
+				}
 			}
 		}
 		switch b.Op {
